@@ -40,6 +40,11 @@ CHECKS = {
     text='TLC checks TrimEquiv (every output evaluation after Trim(I,O) returns Fresh of the untrimmed sheet) over all evaluate/set_value histories before and after the trim for sampled (I,O) choices incl. range inputs and buried inputs; the tour executes every transition on the real ExcelCompiler and compares each output with the untrimmed model under the same assignments, directly and after to_file/from_file (yml, json, pkl), plus the projected state incl. the frozen set.',
     note='outputs are evaluated before the trim (frozen cells need a value); only leaf inputs are assigned after the trim; |I|,|O| <= 2',
     ref='§3 C08'),
+ 'C09': dict(
+    technique='EngineFail.tla (Engine + broken/overwritten cells, sequential depth-first evaluation with failure) explored exhaustively by TLC; fault-enumeration replay of every transition on real models in plain and iterative mode',
+    text='Every formula cell in turn is made to fail (unknown function, raising plugin, plugin switched between calls = "raises on its k-th call"); TLC checks ReturnsTrue, RaiseJustified, CoherentF and UnrelatedOK over all evaluate/set_value/repair/break/heal histories; each transition is executed on the real code: cells not depending on a failing cell must return the value of a fresh model, dependants must raise a pycel exception (or return that true value when legitimately cached), repaired cells behave as constants, and after every call the error-message list, array-context stack, wip flags and todo lists are clean; plain mode also compares the projected state.',
+    note='iterative mode is judged by observables only; known finding D29 (overwrite ignored in iterative mode) attributed by predictor; after a repair the precedents of the overwritten cell are not changed',
+    ref='§3 C09'),
  'C11': dict(
     technique='Address.tla (column letters, print/parse, R1C1, rectangle lattice) model-checked by TLC over boundary walks, sheet-name strings and all rectangle pairs/triples of a 3x3 (4x4) grid; every state executed on AddressRange/AddressCell',
     text='TLC checks ColInverse/ColSucc, coordinate and sheet-name round trips, offset wrap, cell counts, exact intersection, minimal union, commutativity/associativity/idempotence/absorption on the definitions; each visited state is executed on the real address classes in every notation (A1, quoted, $, R1C1 absolute/relative, tuple) and compared.',
